@@ -386,6 +386,10 @@ impl Run {
         for (k, v) in &stats.extra {
             coverage[k] = v.clone();
         }
+        let created = crate::chooser::CH_CREATED.load(std::sync::atomic::Ordering::Relaxed);
+        let exhausted = crate::chooser::CH_EXHAUSTED.load(std::sync::atomic::Ordering::Relaxed);
+        coverage["choice_decoders"] = json!(created);
+        coverage["choice_decoders_run_past_end"] = json!(exhausted);
         let ev = json!({
             "property_id": self.property,
             "tier": self.tier.name(),
@@ -411,6 +415,7 @@ impl Run {
             self.violations.len(),
             self.start.elapsed().as_secs_f64()
         );
+        println!("  generator health: {exhausted} of {created} choice decoders ran past the end of their sequence");
         if !stats.classes.is_empty() {
             let cl: Vec<String> = stats.classes.iter().map(|(k, v)| format!("{k}={v}")).collect();
             println!("  classes: {}", cl.join(" "));
@@ -473,4 +478,149 @@ pub fn read_json(path: &str) -> Value {
 
 pub fn choices_from_json(v: &Value) -> Vec<u32> {
     v["choices"].as_array().map(|a| a.iter().map(|x| x.as_u64().unwrap_or(0) as u32).collect()).unwrap_or_default()
+}
+
+// ---------------------------------------------------------------------------------------------
+// coverage-guided search over the choice sequence (libFuzzer target `wide`)
+
+/// libFuzzer input -> choice sequence: two bytes per choice, spread over the 32 bits so that the
+/// chooser's monotone range map (`v * n >> 32`) sees every outcome of ranges up to 65536.
+pub fn choices_from_bytes(data: &[u8]) -> Vec<u32> {
+    data.chunks(2)
+        .map(|c| {
+            let hi = c[0] as u32;
+            let lo = *c.get(1).unwrap_or(&0) as u32;
+            hi << 24 | lo << 16 | hi << 8 | lo
+        })
+        .collect()
+}
+
+pub fn bytes_from_choices(choices: &[u32]) -> Vec<u8> {
+    choices.iter().flat_map(|v| [(v >> 24) as u8, (v >> 16) as u8]).collect()
+}
+
+/// The in-process judges that are pure functions of (code under test, choice sequence).
+pub fn wide_judge(property: &str) -> Option<fn(&dyn crate::sut::Sut, &[u32], &mut Stats) -> Result<(), String>> {
+    use crate::props::*;
+    Some(match property {
+        "C03" => c03::judge_wide,
+        "C08" => c08::judge_wide,
+        "C09" => c09::judge_wide,
+        "C11" => c11::judge_choices,
+        "C13" => c13::judge_wide,
+        "C16" => c16::judge_choices,
+        _ => return None,
+    })
+}
+
+/// Run libFuzzer (`harness/fuzz`, target `wide`) on the choice sequence of `property`: `jobs`
+/// processes of `runs` executions each, from a corpus of `corpus_n` proptest-sampled sequences. An
+/// artifact is re-judged in this process; a confirmed failure is shrunk by `zero_chunks` and returned.
+pub fn fuzz_choices(run: &Run, stats: &mut Stats, len: (usize, usize), corpus_n: usize, jobs: usize, runs: u64, judge: &mut Judge) -> Option<Failure> {
+    let property = run.property;
+    let base = PathBuf::from(VERIF_DIR).join("work/fuzz_wide").join(property);
+    let _ = std::fs::remove_dir_all(&base);
+    let corpus = base.join("corpus");
+    let artifacts = base.join("artifacts");
+    let logs = base.join("logs");
+    for d in [&corpus, &artifacts, &logs] {
+        std::fs::create_dir_all(d).expect("fuzz dirs");
+    }
+    let (_r, sampled) = sample(run.seed_for(78), corpus_n, len);
+    for (i, t) in sampled.trees.iter().enumerate() {
+        std::fs::write(corpus.join(format!("gen_{i}")), bytes_from_choices(&t.current())).unwrap();
+    }
+    let seed = (run.seed_for(79) % 0x7fff_ffff).max(1);
+    // build first (output ignored unless it fails), then run the binary from the log directory:
+    // with -jobs libFuzzer writes fuzz-<k>.log files into the working directory
+    let build = std::process::Command::new("cargo")
+        .current_dir(format!("{VERIF_DIR}/harness"))
+        .env("CARGO_NET_OFFLINE", "true")
+        .args(["+nightly", "fuzz", "build", "-s", "none", "wide"])
+        .output();
+    match build {
+        Ok(o) if o.status.success() => {}
+        Ok(o) => {
+            eprintln!("cargo fuzz build wide failed:\n{}", String::from_utf8_lossy(&o.stderr).chars().rev().take(3000).collect::<String>().chars().rev().collect::<String>());
+            std::process::exit(2);
+        }
+        Err(e) => {
+            eprintln!("cannot run cargo fuzz: {e}");
+            std::process::exit(2);
+        }
+    }
+    // cargo-fuzz run from /verif/harness uses that directory's configured target-dir
+    let bin = ["target-harness", "target-fuzz"]
+        .iter()
+        .map(|t| format!("{VERIF_DIR}/work/{t}/x86_64-unknown-linux-gnu/release/wide"))
+        .find(|p| Path::new(p).exists())
+        .unwrap_or_else(|| {
+            eprintln!("the fuzz target binary `wide` was built but not found under {VERIF_DIR}/work");
+            std::process::exit(2)
+        });
+    let out = std::process::Command::new(&bin)
+        .current_dir(&logs)
+        .env("VERIF_FUZZ_PROP", property)
+        .arg(&corpus)
+        .arg(format!("-runs={runs}"))
+        .arg(format!("-seed={seed}"))
+        .arg(format!("-jobs={jobs}"))
+        .arg(format!("-workers={jobs}"))
+        .arg(format!("-max_len={}", len.1 * 2))
+        .args(["-len_control=0", "-timeout=120", "-rss_limit_mb=4096", "-print_final_stats=1"])
+        .arg(format!("-artifact_prefix={}/", artifacts.display()))
+        .output();
+    let out = match out {
+        Ok(o) => o,
+        Err(e) => {
+            eprintln!("cannot run the fuzz target {bin}: {e}");
+            std::process::exit(2);
+        }
+    };
+    let mut execs = 0u64;
+    let mut cov = String::new();
+    if let Ok(rd) = std::fs::read_dir(&logs) {
+        for e in rd.flatten() {
+            let t = std::fs::read_to_string(e.path()).unwrap_or_default();
+            execs += t.lines().find_map(|l| l.strip_prefix("stat::number_of_executed_units:").and_then(|x| x.trim().parse::<u64>().ok())).unwrap_or(0);
+            if let Some(l) = t.lines().rev().find(|l| l.contains(" cov: ")) {
+                cov = l.trim().to_string();
+            }
+        }
+    }
+    stats.evaluations += execs;
+    stats.extra.insert("fuzz_wide_execs".into(), json!(execs));
+    stats.extra.insert("fuzz_wide_jobs".into(), json!(jobs));
+    stats.extra.insert("fuzz_wide_corpus_seeds".into(), json!(corpus_n));
+    stats.extra.insert("fuzz_wide_last_status".into(), json!(cov));
+    stats.extra.insert("fuzz_wide_corpus_final".into(), json!(std::fs::read_dir(&corpus).map(|r| r.count()).unwrap_or(0)));
+    let mut arts: Vec<PathBuf> = std::fs::read_dir(&artifacts).map(|rd| rd.flatten().map(|e| e.path()).collect()).unwrap_or_default();
+    arts.sort();
+    if arts.is_empty() {
+        if !out.status.success() || execs == 0 {
+            eprintln!("the fuzz target failed without an artifact (status {:?}, {execs} executions):\n{}", out.status, String::from_utf8_lossy(&out.stderr).chars().rev().take(2000).collect::<String>().chars().rev().collect::<String>());
+            std::process::exit(2);
+        }
+        return None;
+    }
+    let mut scratch = Stats::new();
+    for a in &arts {
+        let choices = choices_from_bytes(&std::fs::read(a).unwrap_or_default());
+        if let Err(m) = judge(&choices, &mut scratch) {
+            let mut msg = m;
+            let best = zero_chunks(&choices, 600, &mut |c| match judge(c, &mut scratch) {
+                Ok(()) => false,
+                Err(m) => {
+                    msg = m;
+                    true
+                }
+            });
+            if let Err(m) = judge(&best, &mut scratch) {
+                msg = m;
+            }
+            return Some(Failure { choices: best, message: format!("{msg}\n(found by libFuzzer on the choice sequence)") });
+        }
+    }
+    eprintln!("libFuzzer stopped on an input that is not a violation when re-judged (timeout, OOM or crash): inconclusive. artifacts in {}", artifacts.display());
+    std::process::exit(2);
 }
